@@ -13,7 +13,7 @@ func c11Gen(r *rand.Rand, tier string) []spec.Case {
 	sizes := []int{0, 1, 1023, 1024, 1025, 2047, 2048, 2049, 4095, 4096, 4097, 8192, 65536}
 	n := 45
 	if tier == "thorough" {
-		n = 1200
+		n = 4000
 	}
 	for i := 0; i < n; i++ {
 		proto := []string{"netrpc", "grpc", "grpcmux"}[i%3]
@@ -54,6 +54,28 @@ func c11Gen(r *rand.Rand, tier string) []spec.Case {
 			c.ClientDelayMs = r.Intn(500)
 		}
 		out = append(out, spec.Case{Kind: proto, P: spec.MustJSON(c)})
+	}
+	// many short writes on both streams, some before the host attaches, while every
+	// Send in the plugin is delayed a little: several chunks of both streams are
+	// waiting whenever the stdio server comes back for more
+	ns := 12
+	if tier == "thorough" {
+		ns = 300
+	}
+	for i := 0; i < ns; i++ {
+		proto := []string{"grpc", "grpcmux", "netrpc"}[i%3]
+		seed := int64(r.Intn(1 << 20))
+		c := spec.C11Case{Proto: proto, ViaRPC: i%2 == 0, PluginHook: pick(r, []string{"grpcstdio.beforeSend:sleep:1", "grpcstdio.beforeSend:sleep:3", "grpcstdio.chunkRead:sleep:1"})}
+		c.Main.Seed, c.Pre.Seed = seed, seed
+		for j := 0; j < 1+r.Intn(3); j++ {
+			c.Pre.Frames = append(c.Pre.Frames, spec.C11Frame{Stream: []string{"o", "e"}[j%2], Len: r.Intn(120)})
+		}
+		c.ClientDelayMs = r.Intn(200)
+		nf := 10 + r.Intn(40)
+		for j := 0; j < nf; j++ {
+			c.Main.Frames = append(c.Main.Frames, spec.C11Frame{Stream: pick(r, []string{"o", "e"}), Len: r.Intn(200), GapUs: pick(r, []int{0, 0, 50, 300, 1500})})
+		}
+		out = append(out, spec.Case{Kind: proto + "-small", P: spec.MustJSON(c)})
 	}
 	return out
 }
@@ -126,7 +148,7 @@ func init() {
 				r.Inconcl = append(r.Inconcl, "nothing received")
 			}
 		},
-		Rule: "a case = a write plan for a real serving plugin (net/rpc, gRPC, gRPC+mux): 1-40 frames over the two streams from two goroutines, sizes around the 1 KiB chunk / 4 KiB buffer boundaries (0,1,1023..1025,2047..2049,4095..4097,8192,64 KiB, occasionally 1 MiB) and random, optional inter-write gaps, optionally concurrent RPC traffic, issued over the side channel or over the plugin RPC; two thirds of the cases also write frames the moment serving starts, before the host calls Client() (host delay 0-500 ms), some with more than pipe+buffer capacity. Frames are self-describing ([stream tag][seq][len][PRNG payload]); the host regenerates the expected stream, checks every 20 ms that what arrived is a prefix of it and, after the plugin acknowledged its last write, that everything arrives within 15 s. Class = (protocol, pre-attach data, traffic, command path, #frames bucket, max frame size class)",
+		Rule:        "a case = a write plan for a real serving plugin (net/rpc, gRPC, gRPC+mux): 1-40 frames over the two streams from two goroutines, sizes around the 1 KiB chunk / 4 KiB buffer boundaries (0,1,1023..1025,2047..2049,4095..4097,8192,64 KiB, occasionally 1 MiB) and random, optional inter-write gaps, optionally concurrent RPC traffic, issued over the side channel or over the plugin RPC; two thirds of the cases also write frames the moment serving starts, before the host calls Client() (host delay 0-500 ms), some with more than pipe+buffer capacity. Frames are self-describing ([stream tag][seq][len][PRNG payload]); the host regenerates the expected stream, checks every 20 ms that what arrived is a prefix of it and, after the plugin acknowledged its last write, that everything arrives within 15 s. Class = (protocol, pre-attach data, traffic, command path, #frames bucket, max frame size class)",
 		Assumptions: []string{"loss is judged as bounded progress: 15 s after the acknowledged last write with the connection still answering Ping", "each frame is issued as one Write call on os.Stdout/os.Stderr of the plugin"},
 	})
 }
